@@ -88,7 +88,8 @@ def impl_valget(data, reuse=False):
     cfg = [it for it in items if isinstance(it, CfgKeyData)]
     if [it.name for it in cfg] != [f'data{k}' for k in range(len(cfg))]:
         return 'bad-names'
-    h = ','.join(f'{it.name}:U{struct.calcsize("<" + it.fmt)}:i{it.value}' for it in hdr)
+    from . import fieldsgen as F_
+    h = ','.join(f'{it.name}:U{struct.calcsize("<" + it.fmt)}:{F_.read_value(fr, it)}' for it in hdr)
     return (h + ' ' + ' '.join(impl_item_token(it) for it in cfg)).rstrip() + ('' if cfg else ' ')
 
 
